@@ -122,6 +122,25 @@ fn hits(data: &[u8], st: usize, len: usize, min: usize, mask: u64, poly: u64) ->
     (lit, d1)
 }
 
+/// the chunk lengths Chunker.tla gives (CutLen with the D1 hit set): the first hit >= min, else max, else the rest
+pub fn ref_chunk_lens(data: &[u8], min: usize, max: usize, mask: u64, poly: u64) -> Vec<usize> {
+    let mut out = Vec::new();
+    let mut st = 0;
+    while st < data.len() {
+        let rem = data.len() - st;
+        if rem <= min {
+            out.push(rem);
+            break;
+        }
+        let lim = rem.min(max);
+        let (lit, d1) = hits(data, st, lim, min, mask, poly);
+        let cut = d1.iter().filter(|n| **n < min + 64).chain(lit.iter().filter(|n| **n >= min + 64)).min().copied().unwrap_or(lim);
+        out.push(cut);
+        st += cut;
+    }
+    out
+}
+
 fn gen_stream(rng: &mut Rng, kind: u64, len: usize, poly: u64, mask: u64) -> Vec<u8> {
     match kind {
         0 => rng.bytes(len),
